@@ -6,8 +6,8 @@ src/voronoi/convex_cell.rs):
   is negative (C05);
 * the exact predicate is asked about (generator, right points of the vertex's three planes in dual order, right point of the
   new plane) — the argument order for which `Props/C10` proves "negative iff inside the circumsphere" (C10);
-* removed vertices are swapped to the tail; the boundary cycle is walked once around (`len + 1` entries);
-  a new vertex is `(cur, next, new plane)` (C18).
+* a new vertex is `(cur, next, new plane)` (C18); the swap-to-tail partition and the walk once around the cycle are
+  compared exactly by the correspondence (op clipperm), not re-read from the syntax.
 -/
 import MVoro.Gen.ClipVertex
 import MVoro.Proofs.ScalarReal
@@ -20,14 +20,8 @@ set_option linter.unusedSectionVars false
 
 /-- the exact predicate is asked about (generator, right points of the vertex's three planes in dual order, right point of the new plane) -/
 theorem gen_exactArgs : Gen.exactArgs = ["gen", "dual0", "dual1", "dual2", "new"] := by decide
-theorem gen_removedSwappedToTail : Gen.removedSwappedToTail = true := by decide
 /-- a new vertex along the boundary cycle is `(cur, next, new plane)`: counter-clockwise like the vertices it replaces -/
 theorem gen_newVertexDual : Gen.newVertexDual = ["cur", "next", "p_idx"] := by decide
-theorem gen_newVertexWalkAdvances : Gen.newVertexWalkAdvances = true := by decide
-/-- the boundary cycle is walked once around: `len + 1` entries give `len` consecutive pairs -/
-theorem gen_boundaryWalk : Gen.boundaryWalk = ["self", "boundary", "iter", "take"] ∧ Gen.boundaryWalkTake = "self . boundary . len + 1" := by
-  decide
-
 section generic
 variable {α : Type} [Add α] [Sub α] [Mul α] [Div α] [Neg α] [NatCast α] [Scalar α]
 
